@@ -62,7 +62,20 @@ def qraw(qd, t):
     return tot
 
 
-def gen_case(rng, size):
+def conflict_rule(mode):
+    """same (track, channel) under the mode, as a predicate on (part index, voice) pairs; None = whole score."""
+    if mode in (0, 5):
+        return lambda a, b: a == b
+    if mode in (1, 2, 3):
+        return lambda a, b: a[0] == b[0]
+    return lambda a, b: True
+
+
+def gen_case(rng, size, strict=None):
+    mode = rng.randint(0, 5)
+    if strict is None:
+        strict = rng.random() < 0.35
+    same_tc = conflict_rule(4 if strict else mode)  # strict: no equal-pitch overlap anywhere in the score
     n_meas = rng.randint(2, 3 + size)
     ts0 = rng.choice(TSIGS)
     ts_change = None
@@ -106,10 +119,11 @@ def gen_case(rng, size):
     if rng.random() < 0.35:
         tempo_pos[rng.randint(1, len(meas) - 1)] = rng.choice(BPMS)
     parts = []
-    taken = []  # (pitch, on_q, off_q) in aligned musical time, for the no-overlap condition
+    taken = []  # (pitch, on_q, off_q, (part, voice)) in aligned musical time, for the no-overlap condition
+    nopick = rng.randrange(n_parts) if (pickup and n_parts >= 2 and rng.random() < 0.15) else None
     for pi in range(n_parts):
         pm = [list(m) for m in meas]
-        if pickup and n_parts >= 2 and pi >= 1 and rng.random() < 0.08:
+        if nopick == pi:
             # this part has no pickup measure: its timeline starts at the first barline
             off = pm[0][1]
             pm = [[m[0] - off, m[1] - off, m[2], m[3]] for m in pm[1:]]
@@ -184,23 +198,24 @@ def gen_case(rng, size):
                     grace = rng.choice(pool)
                 for pitch in pitches:
                     on_q, off_q = pos - align, end - align
-                    if any(p == pitch and on_q < b and a < off_q for p, a, b in taken if a != b) or \
-                            any(p == pitch and a == b and on_q <= a < off_q for p, a, b in taken):
+                    me = (pi, vno)
+                    if any(p == pitch and on_q < b and a < off_q and same_tc(k, me) for p, a, b, k in taken if a != b) or \
+                            any(p == pitch and a == b and on_q <= a < off_q and same_tc(k, me) for p, a, b, k in taken):
                         continue
-                    taken.append((pitch, on_q, off_q))
+                    taken.append((pitch, on_q, off_q, me))
                     # split into tied pieces at the barlines
                     cuts = [pos] + [b for b in bounds if pos < b < end] + [end]
                     durs = [tl(cuts[i + 1]) - tl(cuts[i]) for i in range(len(cuts) - 1)]
                     notes.append({"t": tl(pos), "durs": durs, "pitch": pitch, "voice": vno})
                 if grace is not None:
                     gq = pos - align
-                    if not any(p == grace and a <= gq < b for p, a, b in taken if a != b) and grace not in pitches:
-                        taken.append((grace, gq, gq))
+                    if not any(p == grace and a <= gq < b and same_tc(k, (pi, vno)) for p, a, b, k in taken if a != b) and grace not in pitches:
+                        taken.append((grace, gq, gq, (pi, vno)))
                         notes.append({"t": tl(pos), "durs": [], "pitch": grace, "voice": vno})
                 pos = end
         if not notes:
             p0 = 30 + pi
-            taken.append((p0, -align, pm[0][1] - align))
+            taken.append((p0, -align, pm[0][1] - align, (pi, 1)))
             notes.append({"t": 0, "durs": [measures[0][1]], "pitch": p0, "voice": 1})
         rng.shuffle(notes)  # insertion order into the part is not musical order
         ks = ks_shared if (shared_ks or pi == 0) else ([(0, rng.randint(-7, 7), rng.choice(["major", "minor"]))] if rng.random() < 0.8 else [])
@@ -214,7 +229,7 @@ def gen_case(rng, size):
                       "tsigs": [list(x) for x in tsigs], "ksigs": [list(x) for x in ksigs], "tempi": [list(x) for x in tempi],
                       "notes": notes})
     return {"parts": parts, "structure": rng.choice(STRUCTS[n_parts]),
-            "mode": rng.randint(0, 5), "velocity": rng.choice(VELS), "anacrusis": rng.choice(ANACRUSIS),
+            "mode": mode, "strict_overlap": strict, "velocity": rng.choice(VELS), "anacrusis": rng.choice(ANACRUSIS),
             "minimum_ppq": rng.choice(MINPPQ), "to_file": rng.random() < 0.3,
             "container": rng.choice(["score", "score", "list"])}
 
@@ -359,7 +374,7 @@ def run_impl(case, workdir):
     obs = {}
     try:
         if case["to_file"]:
-            path = os.path.join(workdir, "c04_case.mid")
+            path = os.path.join(workdir, "c04_case_%d.mid" % os.getpid())
             save_score_midi(data, path, **kw)
             mf = mido.MidiFile(path)
             src = path
@@ -729,14 +744,14 @@ def run(ctx):
                        "a grace note never has the pitch of a note sounding or starting at its onset in the same score",
                        "MIDI channel numbers stay below 16 (at most 3 voices / parts per track)"]
     register_known(ctx)
-    ok, why = ctx.coq_props(expect_min=12)
+    ok, why = ctx.coq_props(expect_min=20)
     n = {"quick": 260, "thorough": 6000}.get(ctx.tier, 260)
     cases = corpus_cases()
     for i in range(n):
         cases.append(gen_case(ctx.rng, 1 if i % 3 else 3))
     if ctx.tier == "thorough":
         # every configuration on a fixed set of scores (all 6 x 3 configurations x to_file)
-        base = [gen_case(ctx.rng, 2) for _ in range(40)]
+        base = [gen_case(ctx.rng, 2, strict=True) for _ in range(40)]
         for b in base:
             for mode in range(6):
                 for an in ANACRUSIS:
@@ -745,9 +760,15 @@ def run(ctx):
                     cases.append(c)
     terms, kept = [], []
     found = 0
+    # private directory for the written MIDI files (ctx.work is wiped when another run of C04 starts)
+    fdir = os.path.join(core.WORKROOT, "C04_mid_%d" % os.getpid())
+    os.makedirs(fdir, exist_ok=True)
+    import atexit
+    import shutil
+    atexit.register(shutil.rmtree, fdir, True)
     for case in cases:
         try:
-            obs, parts = run_impl(case, ctx.work)
+            obs, parts = run_impl(case, fdir)
             bad = oracle(case, obs)
         except Exception as e:  # noqa
             import traceback
@@ -771,7 +792,7 @@ def run(ctx):
             if found < 6 or kinds == ["grouping"]:
                 small = case
                 if found < 3 and not kinds[0].startswith("harness") and kinds != ["grouping"]:
-                    small = shrink(case, lambda c: fail_kinds(c, ctx.work) == kinds)
+                    small = shrink(case, lambda c: fail_kinds(c, fdir) == kinds)
                 r = ctx.violation("C04 fails: " + "; ".join("%s: %s" % b for b in bad[:3])[:1500],
                                   {"case": small, "kinds": kinds, "failures": [list(b) for b in bad[:5]]})
                 if r != "known":
